@@ -67,6 +67,19 @@ fn check_back<C: Cfg>(ctx: &mut Ctx, coder: &AnsCoder<C::W, C::S>, trail: &[(Let
         }
         Err(e) => ctx.bad.push((format!("AnsCoder::get_binary | {class} | refused"), format!("{}: data {:x?} models {:?}: {:?}", C::NAME, ctx.data, trail, e), case())),
     }
+    // the borrowing accessor twice in a row and then the consuming one ON THE SAME CODER: a view that is
+    // dropped must leave the coder as it was (the export through the other accessor is still the data)
+    {
+        let mut c3 = c.clone();
+        let first = c3.get_binary().map(|g| to_u128(&g)).ok();
+        let second = c3.get_binary().map(|g| to_u128(&g)).ok();
+        let bits = c3.num_valid_bits();
+        let third = c3.into_binary().map(|b| to_u128(&b)).ok();
+        if first.as_deref() == Some(ctx.data) && (second != first || third != first || bits != wbits * ctx.data.len()) {
+            ctx.bad.push((format!("AnsCoder::get_binary | {class} | the coder no longer exports the original data after a raw-binary view was dropped"),
+                format!("{}: data {:x?} models {:?}: second get_binary {:x?}, num_valid_bits {bits}, into_binary {:x?}", C::NAME, ctx.data, trail, second, third), case()));
+        }
+    }
     match c.clone().into_binary() {
         Ok(b) => {
             if to_u128(&b) != ctx.data {
